@@ -5,6 +5,7 @@ import (
 	"fmt"
 	"os"
 	"path/filepath"
+	"regexp"
 	"strings"
 	"time"
 
@@ -76,6 +77,8 @@ func collapseLiteralNewlines(p string) string {
 
 // literalSrc prints one string part; a raw newline inside it stays raw.
 func quote(p string) string { return "\"" + p + "\"" }
+
+var c09IdentRe = regexp.MustCompile(`^[A-Za-z_][A-Za-z0-9_]*$`)
 
 // q is an AutoVar command: its inline text argument then stands inside a condition.
 var c09Cmd = parser.CommandConfig{AutoVarCommands: map[string]parser.AutoVarCommand{"q": {VarName: "VAR_RESULT"}}}
@@ -205,6 +208,10 @@ func runC09(tier string) int {
 			src, label = "script S {\n\ta("+quote(typ+strings.Join(it.parts, ""))+")\n\tb("+lit+")\n}\n", "S_Text_1"
 		default: // negated last operand of a do...while condition, inside a group
 			src, label = "script S {\n\tdo {\n\t\tx\n\t} while (flag(A) || (flag(B) && !q("+lit+")))\n}\n", "S_Text_0"
+		}
+		// when the whole content is spelled like an identifier, a constant of that name is defined first (text content is not a constant position)
+		if id := strings.Join(norm, ""); c09IdentRe.MatchString(id) {
+			src = "const " + id + " = replaced_" + id + "\n" + src
 		}
 		res := comp.Compile(src, comp.Opts{FontPath: fpath, Switches: sw, Cmd: c09Cmd})
 		r.Add("evaluations", 1)
@@ -339,6 +346,7 @@ func runC09(tier string) int {
 			src, label, formatted = "script S {\n\tmsgbox(format("+lit+", \"f1\", 100))\n}\n", "S_Text_0", true
 		}
 		_ = formatted
+		src = "const " + word + " = replaced_" + word + "\n" + src
 		res := comp.Compile(src, comp.Opts{FontPath: fpath})
 		r.Add("evaluations", 1)
 		r.Add("dictionary_sweep", 1)
@@ -363,5 +371,5 @@ func runC09(tier string) int {
 		"contents whose terminator would straddle two parts are not generated (the property can be read both ways there)",
 		"for format() origins the source lines are the lines of the exported FormatText's result (its content is C07's business)")
 	return r.Finish(r.Get("evaluations"), r.Get("nontrivial"),
-		"every content of total length <= L over {a, é, space, $, \\, 0, n, p, {, }, newline-inside-literal} split into 1-3 literal parts x 3 layouts (same line / one part per line / several comment lines between the parts) x 4 string types x 17 origins (after a plain text spelled like the type plus the content, argument of an AutoVar command standing first / in the middle / last in &&- and ||-chains of if, while and do...while conditions and as a switch operand, text statement, inline argument, format() of each, poryswitch case selected directly / through '_' / brace form, argument inside an if, after / before a typed inline text in the same command, after typed texts elsewhere); plus every identifier-like literal of the compiler's own source as a whole text and as a word of a text (statement, inline, formatted; every type); plus texts of K parts for every K up to the bound in the coverage (statement and inline, every string type); non-trivial = >= 2 parts and a string type")
+		"every content of total length <= L over {a, é, space, $, \\, 0, n, p, {, }, newline-inside-literal} split into 1-3 literal parts x 3 layouts (same line / one part per line / several comment lines between the parts) x 4 string types x 17 origins (after a plain text spelled like the type plus the content, argument of an AutoVar command standing first / in the middle / last in &&- and ||-chains of if, while and do...while conditions and as a switch operand, text statement, inline argument, format() of each, poryswitch case selected directly / through '_' / brace form, argument inside an if, after / before a typed inline text in the same command, after typed texts elsewhere); plus every identifier-like literal of the compiler's own source as a whole text and as a word of a text (statement, inline, formatted; every type); plus texts of K parts for every K up to the bound in the coverage (statement and inline, every string type); a constant named like the content is defined first whenever the content is spelled like an identifier; non-trivial = >= 2 parts and a string type")
 }
